@@ -478,6 +478,14 @@ class C01(E1Check):
             else:
                 st["caller_exc"] = None
                 log("caller-ok")
+            # entering the same context once more is refused - and the refusal changes nothing: it still reports itself closed
+            try:
+                await ctx.__aenter__()
+                st["reentered"] = True
+            except RuntimeError:
+                pass
+            except BaseException as e:  # noqa: BLE001
+                st["reentered"] = repr(e)
             st["closed_after"] = bool(ctx.closed)
 
         async def outer() -> None:
@@ -579,7 +587,9 @@ class C01(E1Check):
             if ev[0] == "cb+" and ev[2] is not True:
                 fail("closed", f"ctx.closed was false inside callback {ev[1]}")
         if not st.get("closed_after"):
-            fail("closed", "ctx.closed is false after the block has been left")
+            fail("closed", "ctx.closed is false after the block has been left (and a second entry has been refused)")
+        if st.get("reentered"):
+            fail("closed", f"entering the context again after its block had been left: {st['reentered']!r} instead of RuntimeError")
         # (4)/(6) what the caller sees
         L = st["L"]
         out = st["caller_exc"]
